@@ -125,13 +125,24 @@ def py_shape(fn: ast.FunctionDef, capacity_name: str) -> ProcShape:
 # ---------------------------------------------------------------------- Go
 
 
-def go_shape(fn: Node) -> ProcShape:
+def go_shape(fn: Node, extra_names: Optional[Dict[str, str]] = None) -> ProcShape:
     sh = ProcShape()
     ver = [0]
     env: Dict[str, Poly] = {}
 
     def lw() -> GoLower:
-        return GoLower({}, names={"ctx.i": f"cur{ver[0]}", "t.capacity": "capacity", "t.nbits": "nbits"})
+        nm = {"ctx.i": f"cur{ver[0]}", "t.capacity": "capacity", "t.nbits": "nbits"}
+        nm.update(extra_names or {})
+        return GoLower({}, names=nm)
+
+    def has_loop(n: Any) -> bool:
+        if isinstance(n, dict):
+            if n.get("k") in ("for", "forrange"):
+                return True
+            return any(has_loop(v) for v in n.values())
+        if isinstance(n, list):
+            return any(has_loop(v) for v in n)
+        return False
 
     def calls_in(n: Any) -> List[Node]:
         out: List[Node] = []
@@ -168,14 +179,14 @@ def go_shape(fn: Node) -> ProcShape:
             sh.events.append("prefix")
             inner = st.body.stmts
             # if ctx.isEncode { Encode } else { ahead = Decode }
-            if len(inner) == 1 and inner[0].k == "if" and go_src(inner[0].cond) == "ctx.isEncode" and inner[0].orelse is not None:
+            if len(inner) == 1 and inner[0].k == "if" and go_src(inner[0].cond) in ("ctx.isEncode", "ctx.is_encode") and inner[0].orelse is not None:
                 enc = calls_in(inner[0].body)
                 dec = calls_in(inner[0].orelse)
-                if enc and "EncodeExtensibleAhead" in go_src(enc[0].f):
+                if enc and "Encode" in go_src(enc[0].f) and "ExtensibleAhead" in go_src(enc[0].f) and "Decode" not in go_src(enc[0].f):
                     sh.encode_call = go_src(enc[0].f)
                 else:
                     sh.problems.append("the encode branch does not write the prefix")
-                if dec and "DecodeExtensibleAhead" in go_src(dec[0].f):
+                if dec and "Decode" in go_src(dec[0].f) and "ExtensibleAhead" in go_src(dec[0].f):
                     sh.decode_call = go_src(dec[0].f)
                     for s2 in inner[0].orelse.stmts:
                         if s2.k == "assign" and s2.lhs[0].k == "id":
@@ -210,6 +221,11 @@ def go_shape(fn: Node) -> ProcShape:
                 elif s2.k == "assign" and go_src(s2.lhs[0]) == "ctx.i":
                     sh.skip_target = lw().expr(s2.rhs[0], inner_env)
                     sh.skip_assign_ok = True
+        elif k == "if" and has_loop(st):
+            sh.children = "complex: if " + go_src(st.cond)
+            sh.children_after_prefix = sh.prefix_guard is not None
+            sh.events.append("children " + sh.children)
+            ver[0] += 1
         elif k == "if":
             sh.events.append("if " + go_src(st.cond))
         elif k == "exprstmt":
@@ -271,11 +287,11 @@ def judge(res: RuleResult, sh: ProcShape, kind: str, lang: str, file: str, fname
         bad("prefix-calls", "the prefix is not both written on encode and read into `ahead` on decode")
     if not sh.children_after_prefix:
         bad("children-order", "children are processed before the prefix")
-    ext = {"self.extensible", "t.extensible"}
+    ext = {"self.extensible", "t.extensible", "descriptor.extensible"}
     if sh.prefix_guard not in ext:
         bad("prefix-guard", f"the prefix is processed under `{sh.prefix_guard}`, expected only under `extensible`", construct=sh.prefix_guard or "", witness="a non-extensible message/array gets (or an extensible one loses) the 16-bit prefix")
     conj = _conjuncts(sh.skip_guard or "")
-    if not (len(conj) == 2 and (conj & {"self.extensible", "t.extensible"}) and (conj & {"not ctx.is_encode", "not ctx.isEncode"})):
+    if not (len(conj) == 2 and (conj & ext) and (conj & {"not ctx.is_encode", "not ctx.isEncode"})):
         bad("skip-guard", f"the skip runs under `{sh.skip_guard}`, expected `extensible and not encoding`", construct=sh.skip_guard or "", witness="the encoder moves its cursor / a traditional decoder skips")
     # skip condition must let every forward move through
     now = V("cur2")
